@@ -220,11 +220,12 @@ pub fn build(fmt: Fmt, input: &[u8]) -> Model {
     m
 }
 
-fn end_item(byte: usize, line: u64) -> Item {
+fn end_item(byte: usize, line: u64, input_len: usize) -> Item {
     Item {
         byte: byte as u64,
         line,
-        end: byte as u64,
+        // whatever follows (blank lines) belongs to the raw extent the reader has to look at
+        end: input_len as u64,
         recs: vec![],
         errs: vec![],
         end_ok: true,
@@ -244,7 +245,7 @@ fn fasta(input: &[u8]) -> Model {
     while i < lines.len() && is_blank(lines[i].1) {
         // an unterminated final "\r" may also be reported as invalid start (4.3)
         if !lines[i].2 && lines[i].1 == b"\r" {
-            let mut it = end_item(lines[i].0, i as u64 + 1);
+            let mut it = end_item(lines[i].0, i as u64 + 1, input.len());
             it.errs.push(ErrPat {
                 kind: "InvalidStart",
                 lines: vec![i as u64 + 1],
@@ -264,7 +265,7 @@ fn fasta(input: &[u8]) -> Model {
         i += 1;
     }
     if i == lines.len() {
-        items.push(end_item(input.len(), lines.len() as u64 + 1));
+        items.push(end_item(input.len(), lines.len() as u64 + 1, input.len()));
         return Model {
             fmt: Fmt::Fasta,
             items,
@@ -349,7 +350,7 @@ fn fasta(input: &[u8]) -> Model {
         });
         i = j;
     }
-    items.push(end_item(input.len(), lines.len() as u64 + 1));
+    items.push(end_item(input.len(), lines.len() as u64 + 1, input.len()));
     Model {
         fmt: Fmt::Fasta,
         items,
@@ -528,14 +529,14 @@ pub fn fastq(input: &[u8], from: usize, first_line: u64) -> Model {
             s = end;
             line += 4;
             if s >= input.len() {
-                items.push(end_item(input.len(), line));
+                items.push(end_item(input.len(), line, input.len()));
                 break;
             }
             continue;
         }
         // fewer than three '\n'
         if rest.split(|b| *b == b'\n').all(|p| is_blank(p)) {
-            items.push(end_item(s, line));
+            items.push(end_item(s, line, input.len()));
             break;
         }
         let n = nl.len() as u64;
